@@ -1461,7 +1461,7 @@ def _instantiate_type_evaluable(ctx) -> bool:
             rule_instantiate_type_by_evaluation(ctx, r, "S14")
         except AnalysisError:
             return False
-        return r.units.get("instantiate_type_runs", 0) >= 20
+        return r.units.get("instantiate_type_runs", 0) >= 23
     return ctx._get("instantiate_type_evaluable", mk)
 
 
@@ -2073,10 +2073,22 @@ def rule_instantiate_type_by_evaluation(ctx, rep: Report, rid="S14", part="subst
         return SampleObj(__kind__="Type", typename=t, is_const=const, is_ref=ref, is_ptr=ptr, is_shared_ptr=sp, is_basic=basic)
 
     def spell(t):
-        return mini_exec(classes["Type"]["to_cpp"], {"self": t}, budget=20000, functions=dict(mi.functions), classes=classes)
+        k_ = "TemplatedType" if isinstance(t, SampleObj) and t.get("__kind__") == "TemplatedType" and "TemplatedType" in classes else "Type"
+        return mini_exec(classes[k_]["to_cpp"], {"self": t}, budget=20000, functions=dict(mi.functions), classes=classes)
+
+    def tt(name, ns, params, const="", ref="", ptr="", sp=""):
+        """A templated type as the parser builds it: the Typename's template arguments are the very Typename objects of the
+        parameter types (the generators print the parameter types, the instantiator rewrites the Typename's arguments)."""
+        return SampleObj(__kind__="TemplatedType", typename=tn(name, ns, [p_["typename"] for p_ in params]), template_params=list(params),
+                         is_const=const, is_ref=ref, is_ptr=ptr, is_shared_ptr=sp)
     P3, D = ("gtsam::Pose3", lambda: tn("Pose3", ["gtsam"])), ("double", lambda: tn("double"))
     this_cpp = "ns::Foo<gtsam::Pose3, double>"
     cases = [
+        ("const std::vector<T>& (a templated type with its parameter types)", lambda: tt("vector", ["std"], [ty(tn("T"))], const="const", ref="&"),
+         "const std::vector<gtsam::Pose3>&"),
+        ("std::map<size_t, const T&> (a templated type)", lambda: tt("map", ["std"], [ty(tn("size_t"), basic=True), ty(tn("T"), const="const", ref="&")]),
+         "std::map<size_t, const gtsam::Pose3&>"),
+        ("std::vector<std::vector<U>> (templated types nested)", lambda: tt("vector", ["std"], [tt("vector", ["std"], [ty(tn("U"))])]), "std::vector<std::vector<double>>"),
         ("T", lambda: ty(tn("T")), "gtsam::Pose3"),
         ("const T&", lambda: ty(tn("T"), const="const", ref="&"), "const gtsam::Pose3&"),
         ("U*", lambda: ty(tn("U"), sp="*"), "std::shared_ptr<double>"),
@@ -2302,3 +2314,55 @@ def rule_listed_types_taken_entry_by_entry(ctx, rep: Report, rid="P14"):
     rep.add(rid, "instantiation lists:every entry becomes what it becomes alone, whatever else is listed and in which order", not probs,
             f"{probs[:3]}: `template<T={{A, B}}>` then does not give for A what `template<T={{A}}>` gives (the wrap run fails, or a TemplatedType reaches "
             f"code that expects a Typename)", loc)
+
+
+# ------------------------------------------------------------------------------------------ B16 the base class is the declared one
+def rule_declared_base_kept(ctx, rep: Report, rid="B16"):
+    """A class is registered with the base class the interface file names: an unqualified base stays unqualified (the dialect asks
+    for fully qualified bases - `: Base` is the global `Base`, also when the class's own namespace happens to declare a `Base`),
+    a qualified one keeps its namespaces.  Decided by running InstantiatedClass.instantiate_parent_class (the analyser's own
+    interpreter) on sample classes declared in a namespace that holds a class of the base's name."""
+    from .rules_matlab import SampleObj, _PathEval, _Raised, mini_exec, program_classes
+    prog = ctx.prog
+    ci = prog.cls("InstantiatedClass")
+    fn = ci.methods.get("instantiate_parent_class")
+    if fn is None:
+        raise AnalysisError(f"{rep.prop}/{rid}: InstantiatedClass.instantiate_parent_class not found")
+    loc = f"{ci.mod.rel}:{fn.lineno}"
+    ps = func_params(fn)
+    classes = program_classes(prog, ["InstantiatedClass", "Typename", "Type", "TemplatedType"])
+    fns_ = dict(prog.module(f"{TI}/helpers.py").functions)
+
+    def tn(name, ns=()):
+        return SampleObj(__kind__="Typename", name=name, namespaces=list(ns), instantiations=[], __complete__=True)
+    root = SampleObj(__kind__="Namespace", name="", parent="", content=[], full_namespaces=lambda: [""])
+    outer = SampleObj(__kind__="Namespace", name="ns", parent=root, content=[], full_namespaces=lambda: ["", "ns"])
+    inner = SampleObj(__kind__="Namespace", name="inner", parent=outer, content=[], full_namespaces=lambda: ["", "ns", "inner"])
+    root["content"] = [SampleObj(__kind__="Class", name="Base", parent=root, template=""), outer]
+    outer["content"] = [SampleObj(__kind__="Class", name="Base", parent=outer, template=""), SampleObj(__kind__="ForwardDeclaration", name="Fwd", parent=outer), inner]
+    probs, ran = [], 0
+    for scope, scope_ns, base, label in ((outer, ["", "ns"], tn("Base"), "`class ns::Derived : Base` (ns declares a Base of its own)"),
+                                         (inner, ["", "ns", "inner"], tn("Base"), "`class ns::inner::Deep : Base`"),
+                                         (outer, ["", "ns"], tn("Fwd"), "`class ns::Derived : Fwd` (ns forward-declares a Fwd)"),
+                                         (outer, ["", "ns"], tn("Base", ["other"]), "`class ns::Derived : other::Base`"),
+                                         (root, [""], tn("Base", ["ns"]), "`class Derived : ns::Base`")):
+        orig = SampleObj(__kind__="Class", name="Derived", parent=scope, parent_class=base, template="")
+        scope["content"].append(orig)
+        me = SampleObj(__kind__="InstantiatedClass", __bases__=["Class"], original=orig, parent=scope, name="Derived", instantiations=[],
+                       namespaces=lambda s_=scope_ns: list(s_), template="")
+        try:
+            got = mini_exec(fn, {ps[0]: me, ps[1]: []}, budget=20000, classes=classes, functions=fns_, methods=dict(ci.methods))
+        except (_PathEval.Unknown, _Raised, TypeError, KeyError, IndexError, AttributeError):
+            continue
+        finally:
+            scope["content"].remove(orig)
+        ran += 1
+        spelled = "::".join([n_ for n_ in (got.get("namespaces") or []) if n_] + [got.get("name", "?")]) if isinstance(got, dict) else repr(got)
+        want = "::".join(list(base["namespaces"]) + [base["name"]])
+        if spelled != want:
+            probs.append(f"{label} is registered with the base `{spelled}`")
+    rep.units["declared_base_cases_evaluated"] = ran
+    if ran < 5:
+        raise AnalysisError(f"{rep.prop}/{rid}: instantiate_parent_class could be evaluated for {ran} of 5 sample classes only")
+    rep.add(rid, "base class:the instantiated class carries the base the declaration names", not probs,
+            f"{probs[:3]}: `py::class_<Derived, Base, ...>` (and the MATLAB classdef) then name another class than the interface declares", loc)
